@@ -361,6 +361,12 @@ class ObjNpModule(object):
                 return wrap(elementwise(name, ua))
             if name in ('any', 'all'):
                 return reduce_bool(I, fr, ua[0], name, uk.get('axis', ua[1] if len(ua) > 1 else None), uk.get('keepdims', False))
+            if name in ('not_equal', 'equal'):
+                a_, b_ = np.asarray(ua[0], dtype=object), np.asarray(ua[1], dtype=object)
+                eqf = (lambda x, y: core.sc_eq(x, y) if isinstance(x, S) or isinstance(y, S) else x == y)
+                f = eqf if name == 'equal' else (lambda x, y: (core.s_not(sbool(eqf(x, y))) if isinstance(eqf(x, y), S) else not eqf(x, y)))
+                r = _cmp(a_, b_, f)
+                return wrap(r) if r.ndim else r[()]
             if name == 'logical_not':
                 x = ua[0]
                 if isinstance(x, (list, tuple)):
